@@ -122,6 +122,14 @@ class Point(object):
                     ce.client.disconnect()
                     w.run(4)   # server processes the disconnect and removes the connection
                     assert ce.addr not in w.ctxt.connections
+            elif what == "kicked":
+                # the SERVER closed the session; the client has processed the genuine DISCONNECT and gone through several updates
+                w.server_conn(0).disconnect()
+                w.run(5)
+            elif what == "closed":
+                # the client closed the session, the server's last datagram has arrived, several updates later
+                ce.client.disconnect()
+                w.run(5)
             elif what == "idle":
                 pass
         # target description
@@ -137,6 +145,11 @@ class Point(object):
 
     def has_key(self):
         c = self.target_conn()
+        if self.side == "c" and self.name.split(".")[1] in ("disconnected", "kicked", "closed"):
+            # this connection object completed a handshake: "once a connection holds a session key" applies for the rest of its
+            # life, whatever it has done with the key since (a connection that forgets its key when the session closes is back
+            # in the state in which a clear-text hello is processed)
+            return c is not None
         return c is not None and c.session_key_bytes is not None
 
     def flush(self):
@@ -213,7 +226,7 @@ class Point(object):
             self.w = None
 
 
-POINTS_CLIENT = ["c.connecting", "c.idle", "c.busy", "c.disconnected"]
+POINTS_CLIENT = ["c.connecting", "c.idle", "c.busy", "c.disconnected", "c.kicked", "c.closed"]
 POINTS_SERVER = ["s.new", "s.temp", "s.idle", "s.busy", "s.disconnected"]
 
 
@@ -302,7 +315,7 @@ def capture_genuine(pt):
     w = pt.w
     what = pt.name.split(".")[1]
     out = []
-    if what in ("connecting", "new", "disconnected"):
+    if what in ("connecting", "new", "disconnected", "kicked", "closed"):
         return out
     base = len(w.all_sent)
     saved_blackout = dict(w.blackout)
